@@ -93,9 +93,21 @@ CLAIMED.update({
         ref='DESIGN.md section 5 C14'),
 })
 
+CLAIMED.update({
+    'C15': dict(
+        text='Deductive proof, function by function over the whole conversion layer (parse tree -> AST), that every node has the kind of the grammar alternative it was parsed from, carries exactly the range of its '
+             'context (first character of the first token to just past the last token, counted in characters: ctxToRange / tokenToRange), and that every child sits at the grammar position the property names '
+             '(cap vs. source of a capped source, address vs. bound of an overdraft, left vs. right of an infix expression, asset vs. amount of a monetary, each clause of in-order / allotment lists in list order, '
+             'statement order of the program); Position.GtEq is the lexicographic order and Range.Contains is closed-interval containment.',
+        note='What the tokens and contexts ARE (lexing, whitespace and comment skipping, precedence and associativity, which context the accessor of a label returns) is the generated recogniser: assumption T3, not proved. '
+             'Children-within-parents and sibling order follow from the range equations plus T3 and are not separately machine-checked. Literal values: asset text, operator text, number value (Atoi) and portion values (C13) are covered; '
+             'account/variable/string texts are sliced from the token text and proved only to be in bounds.',
+        ref='DESIGN.md section 5 C15'),
+})
+
 NOT_APPLICABLE = {}
 
-PENDING = ['C15', 'C16', 'C17', 'C18', 'C19', 'C20']
+PENDING = [ 'C16', 'C17', 'C18', 'C19', 'C20']
 
 
 def main():
